@@ -4,6 +4,7 @@ import (
 	"bytes"
 	"context"
 	"fmt"
+	"regexp"
 	"sort"
 	"strings"
 	"testing/fstest"
@@ -374,6 +375,7 @@ func c06PerFill(r *Run) {
 func runC06(r *Run) {
 	c06SlotInSuppliedContent(r)
 	c06PerFill(r)
+	c06ContentState(r)
 	r.Imports = []string{"Base.Val", "Model.Stack", "Model.Loops", "Model.Include", "Model.Slots"}
 	r.Rule("components with default / named slots a, b (with and without fallback, binding props item / k, inside v-for (on a parent element, on a <template> and on the <slot> tag itself), nested inside another component that forwards an outer slot); includers supplying every subset of the slots " +
 		"as plain children, <template v-slot:name>, <template #name>, with the props under a declared name or destructured; supplied content is dynamic (prints includer variables, names the component defines, slot props) and may include further components; " +
@@ -476,4 +478,64 @@ func (l *limitWriter) Write(p []byte) (int, error) {
 		return 0, fmt.Errorf("output exceeds %d bytes", l.max)
 	}
 	return l.w.Write(p)
+}
+
+// supplied content holding elements with static attributes next to v-show / v-text / v-html / :class, shown once per
+// item (a slot in a loop, a component instantiated by v-for on the include tag, a slot used twice): what one use
+// makes of such an element (display:none, a class) stays with that use; every use equals the same item shown alone
+func c06ContentState(r *Run) {
+	files := map[string]string{
+		"list.vuego": `<ul><li v-for="item in items"><slot :item="item">fb</slot></li></ul>`,
+		"card.vuego": `<section><slot :item="item">fb</slot></section>`,
+		"two.vuego":  `<header><slot :item="items[0]">fb</slot></header><footer><slot :item="items[1]">fb</slot></footer>`,
+	}
+	contents := []string{
+		`<template v-slot="p"><b style="color:red" v-show="p.item.visible" v-text="p.item.name">old</b></template>`,
+		`<template v-slot="{ item }"><div><i style="x:y" class="k" :class="{hot: item.visible}" v-show="item.visible" v-html="item.name"></i></div></template>`,
+	}
+	pages := map[string]string{
+		"slot-in-loop":     `<template include="list.vuego" :items="items">CONTENT</template>`,
+		"instances-by-for": `<template include="card.vuego" v-for="item in items" :item="item">CONTENT</template>`,
+		"slot-used-twice":  `<template include="two.vuego" :items="items">CONTENT</template>`,
+	}
+	masks := [][]bool{{false, true}, {true, false, true}, {false, false, true}}
+	for pn, page := range pages {
+		for ci, content := range contents {
+			for _, mask := range masks {
+				if pn == "slot-used-twice" && len(mask) != 2 {
+					continue
+				}
+				m := fstest.MapFS{}
+				for k, v := range files {
+					m[k] = &fstest.MapFile{Data: []byte(v)}
+				}
+				src := strings.Replace(page, "CONTENT", content, 1)
+				m["page.vuego"] = &fstest.MapFile{Data: []byte(src)}
+				var items []any
+				for i, on := range mask {
+					items = append(items, map[string]any{"visible": on, "name": fmt.Sprintf("n%d", i)})
+				}
+				norm := func(s string) string { return strings.Join(strings.Fields(s), "") }
+				out, err := miniRenderEntry(m, "render", "page.vuego", map[string]any{"items": items})
+				got := norm(out)
+				// every item's element as it is written when that item is the only one
+				ok := err == nil
+				for i := range mask {
+					alone, _ := miniRenderEntry(m, "render", "page.vuego", map[string]any{"items": []any{items[i], items[i]}})
+					re := regexp.MustCompile(`<(b|i)[^>]*>n\d</(b|i)>`)
+					all := re.FindAllString(norm(alone), -1)
+					mine := re.FindAllString(got, -1)
+					if len(all) == 0 || len(mine) != len(mask) || mine[i] != all[0] {
+						ok = false
+					}
+				}
+				r.Eval(fmt.Sprintf("content-state:%s:%d:%v", pn, ci, mask), true, nil)
+				r.Count("stream:content-state(oracle only)")
+				if !ok {
+					r.Fail("supplied content shown for one item carries state another use left on its elements", map[string]string{"oracle": "content-state", "page": pn, "content": fmt.Sprint(ci)},
+						map[string]any{"page": src, "components": files, "items_visible": fmt.Sprint(mask), "output": out, "err": fmt.Sprint(err)})
+				}
+			}
+		}
+	}
 }
